@@ -68,7 +68,7 @@ impl Prop for C10 {
     fn strategy(_tier: Tier, _shard: u32) -> BoxedStrategy<Case> {
         any::<bool>()
             .prop_flat_map(|g| {
-                let inverse = prop_oneof![16 => 0usize..=12, 1 => 13usize..=80].prop_flat_map(move |n| {
+                let inverse = prop_oneof![160 => 0usize..=12, 10 => 13usize..=80, 1 => 250usize..=262, 1 => 300usize..=700].prop_flat_map(move |n| {
                     (
                         proptest::collection::vec(gen::nonws_unit(g), n),
                         proptest::collection::vec(any::<bool>(), n),
